@@ -291,6 +291,72 @@ def run(prog, chk):
         else:
             r3.ok("%s@L%s" % (n.get("callee"), n.get("l")), "all four window fields re-based on every path")
 
+    r3b = chk.rule("R3b-rebase-keeps-offsets", "where get_more_chars moves data that is kept (from text_start to the start of the "
+                   "buffer), each window pointer other than text_start is re-based with a distance measured before the move - the "
+                   "value stored mentions a local computed from the old window - so that the token value does not slide onto "
+                   "the start of the token text", primary=False, floor=2)
+    WINDOW = ("text_start", "tvalue_start", "next_char", "buffer", "buffer_limit")
+    n3b = 0
+    for (bid, idx, n) in movers:
+        before = {bb.id for bb in g.blocks.values() if bid in cfgq.reach(g, [bb.id])} | {bid}
+        # locals that carry something measured on the old window
+        carried = set()
+        changed = True
+        while changed:
+            changed = False
+            for (b2, i2, r2, a_) in g.eval_sites():
+                pairs = []
+                if a_.get("k") == "asg" and a_.get("op") == "=":
+                    pairs.append((path(strip(a_.get("lhs"))), a_.get("rhs")))
+                elif a_.get("k") == "decl":
+                    pairs.extend((v["name"], v.get("init")) for v in a_.get("vars", []) if v.get("init") is not None)
+                for nm, rhs in pairs:
+                    if not nm or not re.match(r"^\w+$", nm) or nm in carried or b2.id not in before or (b2.id == bid and i2 > idx):
+                        continue
+                    for x in walk(rhs):
+                        if (x.get("k") == "member" and x.get("name") in WINDOW) or (x.get("k") == "ref" and x.get("name") in carried):
+                            carried.add(nm)
+                            changed = True
+                            break
+        after = cfgq.reach(g, [bid]) | {bid}
+        # locals computed after the move from the carried ones carry the measurement on
+        changed = True
+        while changed:
+            changed = False
+            for (b2, i2, r2, a_) in g.eval_sites():
+                pairs = []
+                if a_.get("k") == "asg":
+                    pairs.append((path(strip(a_.get("lhs"))), a_.get("rhs")))
+                elif a_.get("k") == "decl":
+                    pairs.extend((v["name"], v.get("init")) for v in a_.get("vars", []) if v.get("init") is not None)
+                for nm, rhs in pairs:
+                    if nm and re.match(r"^\w+$", nm) and nm not in carried and \
+                            any(x.get("k") == "ref" and x.get("name") in carried for x in walk(rhs)):
+                        carried.add(nm)
+                        changed = True
+        for fld in ("tvalue_start", "next_char"):
+            for (b2, i2, r2, a_) in g.eval_sites("asg"):
+                if not (path(strip(a_.get("lhs"))) or "").endswith("->" + fld) or a_.get("op") != "=" or b2.id not in after \
+                        or (b2.id == bid and i2 < idx):
+                    continue
+                key = "%s@L%s:%s@L%s" % (n.get("callee"), n.get("l"), fld, a_.get("l"))
+                if key in {k_ for k_ in getattr(r3b, "_seen", set())}:
+                    continue
+                r3b._seen = getattr(r3b, "_seen", set()) | {key}
+                n3b += 1
+                refs = {x.get("name") for x in walk(a_.get("rhs")) if x.get("k") == "ref"}
+                if refs & carried:
+                    r3b.ok(key, "re-based with %s, measured before the move" % ", ".join(sorted(refs & carried)))
+                else:
+                    from ..facts import show as _show
+                    r3b.violation(g.file, g.name, a_.get("l"), "rebase-drops-offset:%s" % fld,
+                                  "after the buffered data was moved (%s at L%s) `%s` is set to `%s`, which carries over nothing measured "
+                                  "on the old window: its distance from the start of the token text is lost, and a token value whose "
+                                  "text is being kept slides onto the text start (the opening delimiter)"
+                                  % (n.get("callee"), n.get("l"), fld, _show(a_.get("rhs"))[:50]))
+    if n3b < 2:
+        raise Broken("fewer than 2 re-basing stores after a data move in get_more_chars")
+
 
 def fold_rule(prog, chk):
     """R4: in get_more_chars' CR LF folding loop every compaction move removes one character from the data, so the
